@@ -333,6 +333,49 @@ Proof.
   - rewrite length_row_major. destr_rects. unf. lia.
 Qed.
 
+(* ---- additions after the independent audit (round 1) ---------------------- *)
+(* resized_width / resized_height are `resized` with the other extent kept *)
+Theorem resized_width_is_resized r w a : resized_width r w (ax a) = resized r (S w (sh (sz r))) a.
+Proof.
+  destruct r as [[x y] [w0 h0]], a as [ax0 ay0].
+  unfold resized, resized_width, resized_height, resize_delta. cbn [tl sz px py sw sh ax ay].
+  rewrite Z.sub_diag. destruct ay0; cbn; rewrite ?Z.add_0_r; reflexivity.
+Qed.
+
+Theorem resized_height_is_resized r h a : resized_height r h (ay a) = resized r (S (sw (sz r)) h) a.
+Proof.
+  destruct r as [[x y] [w0 h0]], a as [ax0 ay0].
+  unfold resized, resized_width, resized_height, resize_delta. cbn [tl sz px py sw sh ax ay].
+  rewrite Z.sub_diag. destruct ax0; cbn; rewrite ?Z.add_0_r; reflexivity.
+Qed.
+
+(* offset per axis, INCLUDING zero extents: a side of positive length moves out by n on both ends;
+   a zero extent is treated like a 1 pixel extent for the centre, so the result is the 2n wide range
+   starting n-1 before the old position (not n): the statement "every side moves by n" is about
+   rectangles that have sides. *)
+Theorem offset_grow_axis r n : rect_ok r -> 0 <= n <= bound ->
+  let o := offset r n in
+  (0 < sw (sz r) -> px (tl o) = px (tl r) - n /\ sw (sz o) = sw (sz r) + 2*n) /\
+  (sw (sz r) = 0 -> 0 < n -> px (tl o) = px (tl r) - (n-1) /\ sw (sz o) = 2*n) /\
+  (0 < sh (sz r) -> py (tl o) = py (tl r) - n /\ sh (sz o) = sh (sz r) + 2*n) /\
+  (sh (sz r) = 0 -> 0 < n -> py (tl o) = py (tl r) - (n-1) /\ sh (sz o) = 2*n).
+Proof.
+  intros H Hn. destruct r as [[x y] [w h]]. unf.
+  destruct (0 <=? n) eqn:?; cbn [tl sz px py sw sh]; lia.
+Qed.
+
+Lemma widen1_id r : 0 < sw (sz r) -> 0 < sh (sz r) -> widen1 r = r.
+Proof. destruct r as [[x y] [w h]]. unfold widen1. cbn [tl sz sw sh]. intros. f_equal. f_equal; lia. Qed.
+
+(* for rectangles that have points, the envelope is the least rectangle containing both *)
+Theorem envelope_least_nonzero a b c : rect_ok a -> rect_ok b ->
+  0 < sw (sz a) -> 0 < sh (sz a) -> 0 < sw (sz b) -> 0 < sh (sz b) ->
+  (forall p, contains a p = true \/ contains b p = true -> contains c p = true) ->
+  forall p, contains (envelope a b) p = true -> contains c p = true.
+Proof.
+  intros Ha Hb ? ? ? ? H. apply envelope_least; auto. rewrite !widen1_id by assumption. exact H.
+Qed.
+
 (* ---- translation -------------------------------------------------------- *)
 Theorem contains_translate r d p :
   contains (translate_rect r d) (padd p d) = contains r p.
